@@ -436,6 +436,11 @@ def solve_pareto_front(
     if not minimize_vars:
         single = solve_and_get_model(csp)
         return [single] if single is not None else []
+    if len(minimize_vars) == 1:
+        # a single objective has a single optimum; z3's Pareto enumeration would keep
+        # answering sat with that same model for ever
+        single = solve_and_get_model(csp, minimize_vars)
+        return [single] if single is not None else []
 
     z3_csp = _convert_csp_to_z3(csp)
 
